@@ -24,12 +24,6 @@ theorem decLoop_hist (s t rest tp refs path o) :
             by intro e he s'; simp at he; subst he; trivial⟩
         · exact ⟨[], rfl, by intro e he; simp at he⟩
 
-theorem owned_cons_none {f : Frame} (stk : List Frame) (h : owns f = none) :
-    owned (f :: stk) = owned stk := by rw [owned_cons, h]
-
-theorem owned_cons_some {f : Frame} {p : Pid} (stk : List Frame) (h : owns f = some p) :
-    owned (f :: stk) = p :: owned stk := by rw [owned_cons, h]
-
 theorem sublist_of_eq {α : Type} {a b : List α} (h : a = b) : a.Sublist b := by
   rw [h]; exact List.Sublist.refl _
 
@@ -205,9 +199,7 @@ theorem XInv.step {cfg : Cfg} {s s' : State} {t : Tid} {a : Act} (hs : XInv s)
       unfold fnReturn
       cases res with
       | panic =>
-        exact hs.local' t [.dead] [_] rfl (List.nil_sublist _) rfl rfl rfl
-          (by intro f hf; simp at hf; subst hf; trivial) rfl
-          (by intro e he; simp at he; subst he; trivial)
+        exact hs.crash t _ (fun _ => trivial)
       | err er =>
         exact hs.local' t _ [_] (retDec_thr ..) (hsub _) (retDec_wip ..) (retDec_pend ..)
           (retDec_npend ..) (xframe_deliverStack hrest _) (retDec_hist ..)
@@ -230,9 +222,7 @@ theorem XInv.step {cfg : Cfg} {s s' : State} {t : Tid} {a : Act} (hs : XInv s)
       cases res with
       | panic =>
         cases h
-        exact hs.local' t [.dead] [_] rfl (List.nil_sublist _) rfl rfl rfl
-          (by intro f hf; simp at hf; subst hf; trivial) rfl
-          (by intro e he; simp at he; subst he; trivial)
+        exact hs.crash t _ (fun _ => trivial)
       | err er =>
         cases h
         exact hs.local' t _ [_] (retExc_thr ..) (hsub _) (retExc_wip ..) (retExc_pend ..)
